@@ -59,6 +59,25 @@ def components(fmt):
     return out
 
 
+def modelled(ai):
+    """True if the value model understands the registered format/type of this AI (a registry update may add new ones)."""
+    p = ais()[ai]
+    try:
+        comps = components(p.get('format', ''))
+    except core.HarnessError:
+        return False
+    typ = p.get('type')
+    if typ == 'str':
+        return True
+    if typ == 'int':
+        return len(comps) == 1 and comps[0][0] == 'N'
+    if typ == 'decimal':
+        return len(comps) in (1, 2) and all(c[0] == 'N' for c in comps)
+    if typ == 'date':
+        return p['format'] in ('N6', 'N6[+N6]', 'N6..12', 'N10', 'N6[+N4]', 'N6+N..4', 'N6[+N..4]', 'N8[+N..4]', 'N8+N..4')
+    return False
+
+
 def maxlen(fmt, typ):
     return sum(k for _, _, k, _ in components(fmt)) + (1 if typ == 'decimal' else 0)
 
@@ -251,10 +270,9 @@ def consumer_witness(ai_lo, props):
     """C11: the AI can be encoded and decoded, with and without separator, for a drawn value and for the value that
     fills the registered format completely."""
     m = core.mod('gs1_128')
-    try:
-        cands = [simple_value(ai_lo), full_value(ai_lo)]
-    except core.HarnessError as e:
-        return ('consumer:gs1-format-not-understood', str(e))
+    if not modelled(ai_lo):
+        return None  # a format the value model does not know (registry newer than the model): no witness can be built
+    cands = [simple_value(ai_lo), full_value(ai_lo)]
     for enc, val in cands:
         bad = _roundtrip(m, ai_lo, enc, val)
         if bad:
